@@ -54,8 +54,8 @@ struct Client : public Thread {
 	}
 };
 
-struct Scn { int nclients; int modes[2]; bool sequential; bool unixPath; bool lateClient; int bound; };
-static std::string scnName(const Scn& s) { return fmt("srv.n%d.m%d%d.seq%d.ux%d.late%d.b%d", s.nclients, s.modes[0], s.modes[1], (int)s.sequential, (int)s.unixPath, (int)s.lateClient, s.bound); }
+struct Scn { int nclients; int modes[2]; bool sequential; int unixPath; bool lateClient; int bound; bool joinFirst; }; // unixPath: 0 TCP port, 1 Unix path, 2 both bound (client 0 uses the port, client 1 the path)
+static std::string scnName(const Scn& s) { return fmt("srv.n%d.m%d%d.seq%d.ux%d.late%d.b%d%s", s.nclients, s.modes[0], s.modes[1], (int)s.sequential, (int)s.unixPath, (int)s.lateClient, s.bound, s.joinFirst ? ".join" : ""); }
 
 static void runScn(const Scn& sc, const std::string* replay) {
 	std::string kase = scnName(sc); g_case = kase; vf::cur(kase);
@@ -63,15 +63,22 @@ static void runScn(const Scn& sc, const std::string* replay) {
 	auto body = [&]() {
 		vf::asan_clear(); memset((void*)&g, 0, sizeof g);
 		vnet::reset(4); vnet::enable(true); vnet::set_limits(0, 0);
+		vsched::set_early_timeouts(!sc.joinFirst); // joinFirst: a client's 3 s wait for its echo may only expire when nothing else can run
 		verdict.clear();
 		{
 			EchoSrv* srv = new EchoSrv();
-			bool bound = sc.unixPath ? srv->bindPath("/tmp/vnet-c14.sock") : srv->bind("127.0.0.1", 9100);
+			bool bound = sc.unixPath == 1 ? srv->bindPath("/tmp/vnet-c14.sock") : srv->bind("127.0.0.1", 9100);
+			if (sc.unixPath == 2) bound = srv->bindPath("/tmp/vnet-c14.sock") && bound;
 			if (!bound) verdict += "bind failed; ";
 			srv->setSequential(sc.sequential);
 			srv->start(true);
 			Client c[2];
-			for (int i = 0; i < sc.nclients; i++) { c[i].id = i; c[i].mode = sc.modes[i]; c[i].port = 9100; c[i].path = sc.unixPath ? "/tmp/vnet-c14.sock" : 0; c[i].start(); }
+			for (int i = 0; i < sc.nclients; i++) { c[i].id = i; c[i].mode = sc.modes[i]; c[i].port = 9100; c[i].path = (sc.unixPath == 1 || (sc.unixPath == 2 && i == 1)) ? "/tmp/vnet-c14.sock" : 0; c[i].start(); }
+			if (sc.joinFirst) {
+				// the server is running and nobody has asked it to stop: every client that connects, sends its token and waits must be served
+				for (int i = 0; i < sc.nclients; i++) c[i].join();
+				for (int i = 0; i < sc.nclients; i++) if (sc.modes[i] == 0 && c[i].connected && !c[i].echoed) verdict += fmt("client %d connected to the running server (%s), sent its token and waited 3 s without being served; ", i, c[i].path ? "Unix path" : "TCP port");
+			}
 			srv->stop(true);
 			// stop(true) has returned: the loop must have ended and no serve() may be in flight
 			g.stopReturned = 1;
@@ -80,7 +87,7 @@ static void runScn(const Scn& sc, const std::string* replay) {
 			if (g.starts != g.ends) verdict += "serve() started but not finished when stop(true) returned; ";
 			if (g.starts > 0 && g.ends > 0 && g.inServe == 0 && sc.nclients > 0) {}
 			Client late; int lateConnected = 0;
-			if (sc.lateClient) { late.id = 7; late.mode = 0; late.port = 9100; late.path = sc.unixPath ? "/tmp/vnet-c14.sock" : 0; late.start(); late.join(); lateConnected = late.connected; if (late.echoed) verdict += "a client that connected after stop(true) returned was served; "; else vf::add(W_LATE_REFUSED); }
+			if (sc.lateClient) { late.id = 7; late.mode = 0; late.port = 9100; late.path = sc.unixPath == 1 ? "/tmp/vnet-c14.sock" : 0; late.start(); late.join(); lateConnected = late.connected; if (late.echoed) verdict += "a client that connected after stop(true) returned was served; "; else vf::add(W_LATE_REFUSED); }
 			delete srv; g.serverFreed = 1;
 			for (int i = 0; i < sc.nclients; i++) c[i].join();
 			(void)lateConnected;
@@ -129,6 +136,8 @@ int main(int argc, char** argv) {
 		for (int m = 0; m < 3; m++) { Scn s = { 1, { m, 0 }, seq != 0, ux != 0, m == 0, (T && m != 0) ? 3 : 2 }; sc.push_back(s); }
 		for (int m0 = 0; m0 < 3; m0++) for (int m1 = m0; m1 < 3; m1++) { if (!T && ux && (m0 || m1)) continue; Scn s = { 2, { m0, m1 }, seq != 0, ux != 0, false, (T && !ux && m0 >= 1) ? 2 : 1 }; sc.push_back(s); }
 	}
+	// both endpoints bound at once, clients finish before stop(true): one client per endpoint must be served
+	for (int seq = 0; seq < 2; seq++) for (int ux = 0; ux < 3; ux++) { Scn s = { 2, { 0, 0 }, seq != 0, ux, false, 1, true }; sc.push_back(s); }
 	if (getenv("C14_ONLY")) { std::vector<Scn> q; for (size_t i = 0; i < sc.size(); i++) if (scnName(sc[i]).find(getenv("C14_ONLY")) == 0) q.push_back(sc[i]); sc.swap(q); }
 	if (vf::opt.replay) {
 		std::string k = vf::opt.kase, sched; size_t bar = k.find('|'); if (bar != std::string::npos) { sched = k.substr(bar + 1); k = k.substr(0, bar); }
